@@ -164,6 +164,12 @@ def cases(draw, two_writes=False):
                         draw(st.floats(-1000, 1000))
             if ub:
                 spec['second']['user_between'] = ub
+        m = draw(st.integers(0, 5))
+        if m < 2:
+            # the first write is one that is rejected inside the frame set-up, after index values of *other* data
+            # were looked at: a column vector (n, 1) as index data / an unevenly spaced index inside high-compatibility
+            # mode. Nothing of it may show in the file written afterwards.
+            spec['second']['first_fails'] = ['index-2d', 'hc-uneven'][m]
     return spec
 
 
@@ -393,9 +399,29 @@ class C13(Property):
             if data is not None:
                 kw['data'] = data
             path = ctx.path()
-            b.df.write(path, **kw)
+            ff = (second or {}).get('first_fails')
+            if ff:
+                labels.append('first-write-rejected:' + ff)
+                base = np.asarray(data['INDEX'], dtype=np.float64)
+                other = (np.sort(base) * 0 + np.arange(len(base)) ** 2 * 3.0 + 5000.0)
+                kw1 = dict(kw, data=dict(data, INDEX=(other.reshape(-1, 1) if ff == 'index-2d' else other)))
+                kw1.pop('from_idx', None)
+                kw1.pop('to_idx', None)
+                import contextlib
+                from dliswriter import high_compatibility_mode
+                from dliswriter.configuration import global_config
+                try:
+                    with (high_compatibility_mode() if ff == 'hc-uneven' else contextlib.nullcontext()):
+                        b.df.write(path, **kw1)
+                    labels.append('first-write-not-rejected')
+                except Exception:
+                    pass
+                finally:
+                    global_config.high_compat_mode = False
+            else:
+                b.df.write(path, **kw)
             first_vals = None
-            if second:
+            if second and not ff:
                 try:
                     with open(path, 'rb') as f:
                         d1 = read_file(f.read())
